@@ -574,7 +574,7 @@ _ADD = {
             " FRAGLOCATE: a loop that reduces an offset by fragment lengths to find the fragment holding it runs while offset >= length. FRAGADOPT: where a continuation fragment becomes the base part, `cont` is stepped past it on every path to the exit."),
     "C19": ([{"run": rules_iter.run_parkrestore, "floor": 6, "use_anchor_files": True}, {"run": rules_table.run_typemap, "floor": 120, "scope": "anchors"}],
             " PARKRESTORE: typestate with trace partitioning over the parked-byte marker of the text iterator: the marker is dropped only after the parked byte was put back or the marker was tested null. TYPEMAP (see C06) for the id -> size switch of mpt_iterator_consume."),
-    "C20": ([], " ERRFX now also covers the helpers a setter hands a pointer into its object to (colour, attribute, string and position parsers): calls of writers whose result is discarded count as stores, and calls that only inspect their arguments (strlen, strncasecmp, isspace ..) do not excuse a store made before them."),
+    "C20": ([{"run": rules_layout.run_resetsame, "floor": 20}], " RESETSAME: in the branch a setter takes for one property name the members stored on the no-source (reset) path overlap the members the value path writes or hands to its parser. ERRFX now also covers the helpers a setter hands a pointer into its object to (colour, attribute, string and position parsers): calls of writers whose result is discarded count as stores, and calls that only inspect their arguments (strlen, strncasecmp, isspace ..) do not excuse a store made before them."),
 }
 # option values are kept by the generic-info metatype: its size computation belongs to "values of any length"
 PROPS["C09"].setdefault("extra_scope_files", []).append("mptcore/misc/geninfo.c")
